@@ -17,7 +17,7 @@ SimNext ==
      \/ \E c \in Clients : (Leave(c) /\ R(<<"leave", c>>)) \/ (st[c] = "member" /\ Disconnect(c) /\ R(<<"disc", c>>))
      \/ \E c \in Clients : Reconnect(c) /\ R(<<"reconnect", c>>)
      \/ \E c \in Clients, t \in {"chat", "usermessage"}, k \in {"", "caption"}, d \in {""} \cup Clients,
-           cl \in {<<"other", "own">>, <<"own", "other">>, <<"none", "none">>, <<"own", "none">>, <<"none", "own">>}, ne \in BOOLEAN :
+           cl \in {<<"other", "own">>, <<"own", "other">>, <<"none", "other">>, <<"none", "none">>, <<"own", "none">>, <<"none", "own">>}, ne \in BOOLEAN :
            Chat(c, t, k, d, cl[1], cl[2], ne, "v") /\ R(<<"chat", c, t, k, d, cl[1], cl[2], B(ne)>>)
      \/ \E c \in Clients, t \in {"chat", "usermessage"}, d \in {"", "A"}, ne \in BOOLEAN :
            Chat(c, t, "", d, "own", "own", ne, "v") /\ R(<<"chat", c, t, "", d, "own", "own", B(ne)>>)
